@@ -43,7 +43,24 @@ def _label_tree(root):
         orelse = [t(c) for c in n.orelse] if k == "if" else []
         return {"lab": lab, "kind": k, "body": body, "orelse": orelse}
 
-    return {"lab": 0, "kind": "proc", "body": [t(c) for c in root.body], "orelse": []}, ids
+    tree = {"lab": 0, "kind": "proc", "body": [t(c) for c in root.body], "orelse": []}
+    # a node object that occurs more than once in the old tree (rewrites that duplicate a statement by reference,
+    # e.g. lift_scope copying an else branch) has no identity to follow: it is not used as a label
+    seen, dup = set(), set()
+
+    def count(n):
+        (dup if id(n) in seen else seen).add(id(n))
+        if _kind(n) in ("for", "if"):
+            for c in n.body:
+                count(c)
+        if _kind(n) == "if":
+            for c in n.orelse:
+                count(c)
+    for c in root.body:
+        count(c)
+    for k in dup:
+        ids.pop(k, None)
+    return tree, ids, ctr[0]
 
 
 def _shape_new(root, ids):
@@ -55,10 +72,12 @@ def _shape_new(root, ids):
     return {"lab": 0, "kind": "proc", "body": [t(c) for c in root.body], "orelse": []}
 
 
-def _forest(nodes, ids, nxt):
-    """inserted statements: old node objects keep their label, new ones get fresh labels > n"""
+def _forest(nodes, ids, nxt, keep):
+    """inserted statements get fresh labels > n, as in the exhaustive model (a replacement is new code even if the
+    rewrite happens to reuse a node object from elsewhere); only node objects taken from the replaced block itself
+    (`keep`: ids of the nodes below the replaced range) keep their label - they are carried over by the edit"""
     def t(n):
-        lab = ids.get(id(n))
+        lab = ids.get(id(n)) if id(n) in keep else None
         if lab is None:
             nxt[0] += 1
             lab = nxt[0]
@@ -101,8 +120,7 @@ def _record(kind, blk, gap, nodes, extra, old_root, new_root, fwd):
     if len(_ST["recs"]) >= _ST["cap"]:
         _ST["dropped"] += 1
         return
-    tree, ids = _label_tree(old_root)
-    n = max(ids.values(), default=0)
+    tree, ids, n = _label_tree(old_root)
     e = {"k": kind}
     if blk is not None:
         e["b"] = {"t": "b", "p": [list(x) for x in blk._anchor._path], "a": blk._attr,
@@ -114,7 +132,17 @@ def _record(kind, blk, gap, nodes, extra, old_root, new_root, fwd):
                   "side": "before" if gap._type == ic.GapType.Before else "after"}
         if not _stmt_path(gap._anchor._path):
             return
-    e["ns"] = _forest(nodes, ids, [n]) if nodes is not None else []
+    keep = set()
+    if blk is not None and nodes is not None:
+        stack = list(getattr(blk._anchor._node, blk._attr)[blk._range.start:blk._range.stop])
+        while stack:
+            x = stack.pop()
+            keep.add(id(x))
+            if _kind(x) in ("for", "if"):
+                stack.extend(x.body)
+            if _kind(x) == "if":
+                stack.extend(x.orelse)
+    e["ns"] = _forest(nodes, ids, [n], keep) if nodes is not None else []
     e["n"] = len(e["ns"])
     e.update(extra)
     key = hashlib.sha1(json.dumps([tree, e], sort_keys=True).encode()).hexdigest()
@@ -135,6 +163,18 @@ def _record(kind, blk, gap, nodes, extra, old_root, new_root, fwd):
         except Exception as x:
             img = {"t": "!", "exc": f"{type(x).__name__}: {str(x)[:80]}"}
         fw.append({"c": c, "r": img})
+    if nodes is not None:
+        # node objects inserted from elsewhere are fresh statements to the spec: do not pin them to their old label
+        ids = dict(ids)
+        stack = [x for x in nodes]
+        while stack:
+            x = stack.pop()
+            if id(x) not in keep:
+                ids.pop(id(x), None)
+            if _kind(x) in ("for", "if"):
+                stack.extend(x.body)
+            if _kind(x) == "if":
+                stack.extend(x.orelse)
     _ST["recs"].append({"ctx": _ST["ctx"], "tree": tree, "edit": e, "ntree": _shape_new(new_root, ids), "fw": fw,
                         "nodes": n})
 
